@@ -105,12 +105,17 @@ func runOne(t *testing.T, sc *Scenario, seed uint64, replay []int, wantTrace boo
 			defer verifSetDet(false, 0)
 			// swarm: in three quarters of the runs the goroutines of one node are also
 			// interleaved between blocking points, at the inserted yield points
-			every := []uint64{0, 400, 40, 6}[ch.Intn(4)]
+			// (the last mode yields only at the points right before a mutex acquisition, and
+			// then for long: one goroutine sits between reading shared state and locking
+			// while the others get through whole operations)
+			ym := ch.Intn(5)
+			every := []uint64{0, 400, 40, 6, 1 << 40}[ym]
+			lockEvery := []uint64{0, 16, 6, 3, 3}[ym]
 			if os.Getenv("VERIF_NOYIELD") != "" {
-				every = 0
+				every, lockEvery = 0, 0
 			}
-			SetAutoYieldRate(seed, every)
-			defer SetAutoYieldRate(0, 0)
+			SetAutoYieldRate(seed, every, lockEvery)
+			defer SetAutoYieldRate(0, 0, 0)
 			inKernel = true
 			k = NewK(ch)
 			k.W.LogObs = true
@@ -258,7 +263,9 @@ func TestWorker(t *testing.T) {
 		bw.WriteByte('\n')
 		bw.Flush()
 	}
-	warmupBegin = func() { emit(RunResult{Kind: "begin", Prop: prop, Scen: os.Getenv("VERIF_SCEN"), Seed: 0xfeedface, Aborted: "warmup"}) }
+	warmupBegin = func() {
+		emit(RunResult{Kind: "begin", Prop: prop, Scen: os.Getenv("VERIF_SCEN"), Seed: 0xfeedface, Aborted: "warmup"})
+	}
 	if os.Getenv("VERIF_LIST") != "" {
 		var names []string
 		for _, s := range ScenariosFor(prop) {
